@@ -635,6 +635,10 @@ structure RoomMerged (d : Defects) (room : RoomT) (old cand merged : RoomNode) :
       (rowEq cand.node old.node = true ∨
        (old.node.mdate < cand.node.mdate ∧ cand.node.ent = 100 ∧ room.isAdmin cand.node.author cand.node.mdate = true))) ∨
     (rowEq merged.node old.node = true ∧ ¬ old.node.mdate < cand.node.mdate)
+  /-- (intended check only) every reference room → group of the candidate is signed by an admin, at the
+      reference's date, of the loaded room as extended by the new admin entries -/
+  groupEdges : d.placingEdgeUnchecked = false →
+    ∀ e ∈ cand.authEdges, (extendAdmins old.adminNodes room merged.adminNodes).isAdmin e.author e.cdate = true
   /-- the pass over the stored groups (entitlement of their new entries: `AuthMerged`) -/
   groups : ∃ upd upd', mergeAuths (extendAdmins old.adminNodes room merged.adminNodes) old.authNodes cand.authNodes upd
     = some (.ok (merged.authNodes, upd'))
@@ -681,6 +685,9 @@ theorem prepareWithHistory_sound {d : Defects} {room : RoomT} {old cand merged :
       | ok room1 =>
         rw [hadm] at h
         simp only at h
+        by_cases hge : (!d.placingEdgeUnchecked && !groupsPlacedByAdmins room1 cand) = true
+        · rw [if_pos hge] at h; cases h
+        rw [if_neg hge] at h
         cases hmerge : mergeAuths room1 old.authNodes cand.authNodes ((sortAsc (·.mdate) a0).any (isNew old.adminNodes)) with
         | none => rw [hmerge] at h; cases h
         | some r1 =>
@@ -704,7 +711,7 @@ theorem prepareWithHistory_sound {d : Defects} {room : RoomT} {old cand merged :
                 subst hm
                 obtain ⟨hroom1, hent⟩ := checkNewAdmins_entitled hadm
                 have am := mergeAuths_sound hmerge
-                refine ⟨?_, ?_, ?_, am.oldCovered, ?_, hent, ?_, ⟨r, hparse⟩, ?_, ?_⟩
+                refine ⟨?_, ?_, ?_, am.oldCovered, ?_, hent, ?_, ⟨r, hparse⟩, ?_, ?_, ?_⟩
                 · intro o ho; obtain ⟨y, hy, he⟩ := mergeRows_old ha0 ho; exact ⟨y, mem_sortAsc.mpr hy, he⟩
                 · intro o ho; obtain ⟨y, hy, he⟩ := mergeEdges_old (cand := cand.adminEdges) ho
                   exact ⟨y, mem_sortAsc.mpr hy, he⟩
@@ -715,6 +722,12 @@ theorem prepareWithHistory_sound {d : Defects} {room : RoomT} {old cand merged :
                   rw [hroom1] at this
                   exact ⟨am.newUntouched a ha hno, this.1, this.2⟩
                 · intro hd; exact roomRowFor_ok hrow hd
+                · intro hd e he
+                  show (extendAdmins old.adminNodes room (sortAsc (·.mdate) a0)).isAdmin e.author e.cdate = true
+                  rw [← hroom1]
+                  simp only [hd, Bool.not_false, Bool.true_and, Bool.not_eq_true', Bool.not_eq_false] at hge
+                  unfold groupsPlacedByAdmins at hge
+                  exact (List.all_eq_true.mp hge) e he
                 · show ∃ upd upd', mergeAuths (extendAdmins old.adminNodes room (sortAsc (·.mdate) a0)) old.authNodes
                     cand.authNodes upd = some (.ok (auths, upd'))
                   rw [← hroom1]; exact ⟨_, _, hmerge⟩
@@ -723,8 +736,9 @@ theorem prepareWithHistory_sound {d : Defects} {room : RoomT} {old cand merged :
 
 /-- **new room**: accepted only if the whole candidate parses and every entry's author is an admin,
     at the entry's date, in the room parsed from it -/
-theorem prepareNewRoom_sound {cand : RoomNode} {room : RoomT} (h : prepareNewRoom cand = .ok room) :
+theorem prepareNewRoom_sound {chk : Bool} {cand : RoomNode} {room : RoomT} (h : prepareNewRoom chk cand = .ok room) :
     cand.parse = .ok room ∧
+    (chk = true → ∀ e ∈ cand.authEdges, room.isAdmin e.author e.cdate = true) ∧
     (∀ n ∈ cand.adminNodes, room.isAdmin n.author n.mdate = true) ∧
     ∀ a ∈ cand.authNodes, room.isAdmin a.node.author a.node.mdate = true ∧
       (∀ n ∈ a.userNodes, room.isAdmin n.author n.mdate = true) ∧
@@ -735,14 +749,22 @@ theorem prepareNewRoom_sound {cand : RoomNode} {room : RoomT} (h : prepareNewRoo
   · cases h
   · next r hp =>
     split at h
-    · next hall =>
-      simp only [Except.ok.injEq] at h
-      subst h
-      simp only [Bool.and_eq_true, List.all_eq_true] at hall
-      refine ⟨hp, hall.1, fun a ha => ?_⟩
-      obtain ⟨⟨⟨h1, h2⟩, h3⟩, h4⟩ := hall.2 a ha
-      exact ⟨h1, h2, h3, h4⟩
     · cases h
+    · next hge =>
+      split at h
+      · next hall =>
+        simp only [Except.ok.injEq] at h
+        subst h
+        simp only [Bool.and_eq_true, List.all_eq_true] at hall
+        refine ⟨hp, ?_, hall.1, fun a ha => ?_⟩
+        · intro hc e he
+          subst hc
+          simp only [Bool.true_and, Bool.not_eq_true', Bool.not_eq_false] at hge
+          unfold groupsPlacedByAdmins at hge
+          exact (List.all_eq_true.mp hge) e he
+        · obtain ⟨⟨⟨h1, h2⟩, h3⟩, h4⟩ := hall.2 a ha
+          exact ⟨h1, h2, h3, h4⟩
+      · cases h
 
 /-! ### the code as written coincides with the intended checks on candidates that pass them -/
 
@@ -764,34 +786,127 @@ theorem checkNewAuths_switch {d d' : Defects} (h : d.newGroupUserAdminUnchecked 
   | nil => rfl
   | cons a rest ih => unfold checkNewAuths; rw [ih, prepareNewAuth_switch h]
 
-theorem prepareWithHistory_switch {d d' : Defects} (h1 : d.roomRowUnchecked = d'.roomRowUnchecked)
+theorem prepareWithHistory_switch {d d' : Defects} (h0 : d.placingEdgeUnchecked = d'.placingEdgeUnchecked)
+    (h1 : d.roomRowUnchecked = d'.roomRowUnchecked)
     (h2 : d.newGroupUserAdminUnchecked = d'.newGroupUserAdminUnchecked) (room : RoomT) (old cand : RoomNode) :
+    prepareWithHistory d room old cand = prepareWithHistory d' room old cand := by
+  unfold prepareWithHistory roomRowFor
+  rw [h0, h1]
+  simp only [checkNewAuths_switch h2]
+
+/-- the room against which the references room → group of a candidate are judged: the loaded room as extended
+    by the candidate's new admin entries (known room), the room parsed from the candidate (new room);
+    `none` when the acceptance fails before it gets there -/
+def judgeRoom (s : RStore) (cand : RoomNode) : Option RoomT :=
+  match s.rooms.find? (·.id = cand.node.id) with
+  | some room =>
+    match readBack false s cand.node.id with
+    | none => none
+    | some old =>
+      match mergeRows old.adminNodes cand.adminNodes with
+      | .error _ => none
+      | .ok a0 =>
+        match checkNewAdmins old.adminNodes room (sortAsc (·.mdate) a0) with
+        | .error _ => none
+        | .ok room1 => some room1
+  | none =>
+    match cand.parse with
+    | .ok r => some r
+    | .error _ => none
+
+/-- the placing references of the candidate are what the repaired code requires: every entry placed by its
+    author with its list's label, every group attached by an administrator -/
+def placingGuard (s : RStore) (cand : RoomNode) : Bool :=
+  cand.placingOk &&
+  match judgeRoom s cand with
+  | some r => groupsPlacedByAdmins r cand
+  | none => true
+
+/-- the candidate has none of the shapes that the setting `d` of the switches does not check
+    (`newestFirstRead = false` is assumed: the code reads oldest first since /repo f7a29ff) -/
+def candGuardD (d : Defects) (s : RStore) (cand : RoomNode) : Bool :=
+  !d.placingEdgeUnchecked || placingGuard s cand
+
+/-- the guard of the code as it is (trivially true once `placingEdgeUnchecked` is off) -/
+def candGuard (s : RStore) (cand : RoomNode) : Bool := candGuardD Defects.asImplemented s cand
+
+/-- with the placing guard, the switch `placingEdgeUnchecked` makes no difference inside `prepare_room_with_history` -/
+theorem prepareWithHistory_placing {d d' : Defects} (h1 : d.roomRowUnchecked = d'.roomRowUnchecked)
+    (h2 : d.newGroupUserAdminUnchecked = d'.newGroupUserAdminUnchecked) (room : RoomT) (old cand : RoomNode)
+    (g : ∀ a0 room1, mergeRows old.adminNodes cand.adminNodes = .ok a0 →
+      checkNewAdmins old.adminNodes room (sortAsc (·.mdate) a0) = .ok room1 → groupsPlacedByAdmins room1 cand = true) :
     prepareWithHistory d room old cand = prepareWithHistory d' room old cand := by
   unfold prepareWithHistory roomRowFor
   rw [h1]
   simp only [checkNewAuths_switch h2]
+  split
+  · rfl
+  · cases ha0 : mergeRows old.adminNodes cand.adminNodes with
+    | error e => rfl
+    | ok a0 =>
+      simp only
+      cases hadm : checkNewAdmins old.adminNodes room (sortAsc (·.mdate) a0) with
+      | error e => rfl
+      | ok room1 =>
+        simp only [g a0 room1 ha0 hadm, Bool.not_true, Bool.and_false, Bool.false_eq_true, if_false]
 
-/-- the candidate has none of the shapes the code does not check (today: the placing references) -/
-def candGuard (_s : RStore) (cand : RoomNode) : Bool := cand.placingOk
+theorem prepareNewRoom_placing {cand : RoomNode} (g : ∀ r, cand.parse = .ok r → groupsPlacedByAdmins r cand = true)
+    (b b' : Bool) : prepareNewRoom b cand = prepareNewRoom b' cand := by
+  unfold prepareNewRoom
+  cases hp : cand.parse with
+  | error e => rfl
+  | ok r => simp only [g r hp, Bool.not_true, Bool.and_false, Bool.false_eq_true, if_false]
 
-/-- **C07_partial, as an equation**: on candidates whose placing references are signed by the
-    entries' authors with the right label and source entity, the code as written takes exactly the
-    decision of the intended checks -/
+/-- two settings of the switches that differ in `placingEdgeUnchecked` only (and read oldest first) decide the
+    same on candidates that pass the placing guard -/
+theorem accept_congr_placing {d d' : Defects} (hn : d.newestFirstRead = false) (hn' : d'.newestFirstRead = false)
+    (h1 : d.roomRowUnchecked = d'.roomRowUnchecked)
+    (h2 : d.newGroupUserAdminUnchecked = d'.newGroupUserAdminUnchecked)
+    (h3 : d.duplicateIdsUnchecked = d'.duplicateIdsUnchecked)
+    {s : RStore} {cand : RoomNode} (g : placingGuard s cand = true) : accept d s cand = accept d' s cand := by
+  unfold placingGuard at g
+  simp only [Bool.and_eq_true] at g
+  obtain ⟨gp, gj⟩ := g
+  unfold accept
+  simp only [gp, Bool.not_true, Bool.and_false, Bool.false_eq_true, if_false, hn, hn', h3]
+  unfold judgeRoom at gj
+  cases hroom : s.rooms.find? (·.id = cand.node.id) with
+  | none =>
+    simp only [hroom] at gj
+    simp only
+    rw [prepareNewRoom_placing (fun r hr => by rw [hr] at gj; exact gj) (!d.placingEdgeUnchecked) (!d'.placingEdgeUnchecked)]
+  | some room =>
+    simp only [hroom] at gj
+    simp only
+    cases hold : readBack false s cand.node.id with
+    | none => rfl
+    | some old =>
+      simp only [hold] at gj
+      simp only
+      rw [prepareWithHistory_placing (d := d) (d' := d') h1 h2 room old cand
+        (fun a0 room1 ha0 hadm => by rw [ha0] at gj; simp only at gj; rw [hadm] at gj; exact gj)]
+
+/-- **C07_partial, as an equation**: on candidates that pass the guard of the code as it is, the code as written
+    takes exactly the decision of the intended checks -/
 theorem accept_congr {s : RStore} {cand : RoomNode} (g : candGuard s cand = true) :
     accept Defects.asImplemented s cand = accept Defects.none s cand := by
-  unfold candGuard at g
-  unfold accept
-  simp only [g, Bool.not_true, Bool.and_false, Bool.false_eq_true, if_false]
-  have h : ∀ room old, prepareWithHistory Defects.asImplemented room old cand = prepareWithHistory Defects.none room old cand :=
-    fun room old => prepareWithHistory_switch (d := Defects.asImplemented) (d' := Defects.none) rfl rfl room old cand
-  simp only [h]
-  rfl
+  unfold candGuard candGuardD at g
+  by_cases hp : Defects.asImplemented.placingEdgeUnchecked = true
+  · simp only [hp, Bool.not_true, Bool.false_or] at g
+    exact accept_congr_placing (d := Defects.asImplemented) (d' := Defects.none) rfl rfl rfl rfl rfl g
+  · have : Defects.asImplemented = Defects.none := by
+      have h : Defects.asImplemented.placingEdgeUnchecked = false := by simpa using hp
+      revert h; decide
+    rw [this]
 
 /-! #### the same for /repo before the fixes (kept as a regression statement) -/
 
+/-- /repo before the first fixes, with the placing references checked (an intermediate value for the proofs) -/
+def Defects.beforeFixesP : Defects := { Defects.beforeFixes with placingEdgeUnchecked := false, newestFirstRead := false }
+
 theorem checkNewAuths_congr {room : RoomT} {old l : List AuthNode}
     (g : ∀ a ∈ l, old.any (·.node.id = a.node.id) = false → a.userAdminNodes = []) :
-    checkNewAuths Defects.beforeFixes room old l = checkNewAuths Defects.none room old l := by
+    checkNewAuths Defects.beforeFixesP room old l = checkNewAuths Defects.none room old l := by
   induction l with
   | nil => rfl
   | cons a rest ih =>
@@ -799,14 +914,14 @@ theorem checkNewAuths_congr {room : RoomT} {old l : List AuthNode}
     unfold checkNewAuths
     cases hold : old.any (·.node.id = a.node.id)
     · have he := g a List.mem_cons_self hold
-      have hp : prepareNewAuth Defects.beforeFixes room a = prepareNewAuth Defects.none room a :=
+      have hp : prepareNewAuth Defects.beforeFixesP room a = prepareNewAuth Defects.none room a :=
         prepareNewAuth_congr (by rw [he]; rfl)
       simp only [Bool.false_eq_true, if_false, hp, ihr]
     · simp only [if_true, ihr]
 
 /-- the guard that was needed before /repo 77018f3 -/
 def candGuardBeforeFixes (s : RStore) (cand : RoomNode) : Bool :=
-  cand.placingOk && cand.idsDistinct &&
+  placingGuard s cand && cand.idsDistinct &&
   match s.rooms.find? (·.id = cand.node.id), readBack false s cand.node.id with
   | some room, some old =>
     (rowEq cand.node old.node ||
@@ -818,10 +933,10 @@ theorem prepareWithHistory_congr {room : RoomT} {old cand : RoomNode}
     (g2 : (rowEq cand.node old.node ||
       (old.node.mdate < cand.node.mdate && cand.node.ent = 100 && room.isAdmin cand.node.author cand.node.mdate)) = true)
     (g3 : ∀ a ∈ cand.authNodes, old.authNodes.any (·.node.id = a.node.id) = false → a.userAdminNodes = []) :
-    prepareWithHistory Defects.beforeFixes room old cand = prepareWithHistory Defects.none room old cand := by
-  have hrow : roomRowFor Defects.beforeFixes room old cand = roomRowFor Defects.none room old cand := by
+    prepareWithHistory Defects.beforeFixesP room old cand = prepareWithHistory Defects.none room old cand := by
+  have hrow : roomRowFor Defects.beforeFixesP room old cand = roomRowFor Defects.none room old cand := by
     unfold roomRowFor
-    simp only [Defects.beforeFixes, Defects.none, Bool.true_or, if_true, Bool.false_or]
+    simp only [Defects.beforeFixesP, Defects.beforeFixes, Defects.none, Bool.true_or, if_true, Bool.false_or]
     simp only [Bool.or_eq_true, Bool.and_eq_true, decide_eq_true_eq] at g2
     rcases g2 with h | ⟨⟨h1, h2⟩, h3⟩
     · simp [h]
@@ -842,6 +957,10 @@ theorem prepareWithHistory_congr {room : RoomT} {old cand : RoomNode}
     | error e => rfl
     | ok room1 =>
       simp only
+      have hpe : Defects.beforeFixesP.placingEdgeUnchecked = Defects.none.placingEdgeUnchecked := rfl
+      rw [hpe]
+      split
+      · rfl
       cases hmerge : mergeAuths room1 old.authNodes cand.authNodes ((sortAsc (·.mdate) a0).any (isNew old.adminNodes)) with
       | none => rfl
       | some r1 =>
@@ -864,11 +983,12 @@ theorem accept_congr_beforeFixes {s : RStore} {cand : RoomNode} (g : candGuardBe
   unfold candGuardBeforeFixes at g
   simp only [Bool.and_eq_true] at g
   obtain ⟨⟨gp, gi⟩, gm⟩ := g
-  have hsw : ∀ room old, prepareWithHistory Defects.beforeFixesOldestFirst room old cand =
-      prepareWithHistory Defects.beforeFixes room old cand :=
-    fun room old => prepareWithHistory_switch (d := Defects.beforeFixesOldestFirst) (d' := Defects.beforeFixes) rfl rfl room old cand
+  -- first the placing references (guard), then the three switches that were fixed
+  rw [accept_congr_placing (d := Defects.beforeFixesOldestFirst) (d' := Defects.beforeFixesP) rfl rfl rfl rfl rfl gp]
+  have gpl : cand.placingOk = true := by
+    unfold placingGuard at gp; simp only [Bool.and_eq_true] at gp; exact gp.1
   unfold accept
-  simp only [gp, gi, Bool.not_true, Bool.and_false, Bool.false_eq_true, if_false, hsw]
+  simp only [gpl, gi, Bool.not_true, Bool.and_false, Bool.false_eq_true, if_false]
   show (if (!cand.sigsOk) = true then _ else if (!cand.consistent) = true then _ else
       match s.rooms.find? (·.id = cand.node.id) with
       | some room => match readBack false s cand.node.id with
@@ -923,7 +1043,7 @@ theorem accept_ok {d : Defects} {s s' : RStore} {cand : RoomNode} (h : accept d 
           ((upd = false ∧ s' = s) ∨
            (upd = true ∧ ∃ r, merged.parse = .ok r ∧ s' = installRoom (writeRoom s merged) r))) ∨
      (s.rooms.find? (·.id = cand.node.id) = none ∧
-        ∃ r, prepareNewRoom cand = .ok r ∧ s' = installRoom (writeRoom s cand) r)) := by
+        ∃ r, prepareNewRoom (!d.placingEdgeUnchecked) cand = .ok r ∧ s' = installRoom (writeRoom s cand) r)) := by
   unfold accept at h
   split at h
   · cases h
@@ -941,7 +1061,7 @@ theorem accept_ok {d : Defects} {s s' : RStore} {cand : RoomNode} (h : accept d 
         | none =>
           rw [hroom] at h
           simp only at h
-          cases hp : prepareNewRoom cand with
+          cases hp : prepareNewRoom (!d.placingEdgeUnchecked) cand with
           | error e => rw [hp] at h; cases h
           | ok r =>
             rw [hp] at h
